@@ -274,10 +274,34 @@ def arrangement_texts(ctx, spec, narr, so_kinds=G.ALL_KINDS):
     return arrs
 
 
-def pt_arrangements(ctx, nspecs, narr, nvals):
+def tree_cases(ctx, n, narr, nvals):
+    """A recursive list whose cycle goes through an alias (L ::= SEQUENCE OF N, N { .. kids C OPTIONAL },
+    C ::= L) and a type that refers to it with a SIZE constraint (D { .. roots L (SIZE(a..b)) }), in the
+    canonical order and in random permutations / splits: the order of the assignments and of the modules
+    decides which type is compiled while which other one is on the recursion-detection stack."""
+    import gen_asn1
     rng = ctx.rng
+    for i in range(n):
+        g = gen_asn1.Gen(rng, gen_asn1.Opts(max_depth=1, recursion=False, named_numbers=False,
+                                            kinds=set(gen_asn1.DEFAULT_KINDS) - {'REF', 'SET'}))
+        g.pending = {}
+        spec = G.Spec(rng.choice(['AUTOMATIC', 'AUTOMATIC', 'IMPLICIT']), False, [], [])
+        G.add_tree_family(rng, g, spec, i, force_size=True)
+        if spec.tags != 'AUTOMATIC':
+            G.mk_tags(rng, spec, G.SpecOpts(top_tags=False))
+        ctx.count('tree-family')
+        pt_one_spec(ctx, spec, narr, nvals, kinds=('permute', 'split', 'alias', 'extract', 'inline'))
+
+
+def pt_arrangements(ctx, nspecs, narr, nvals):
     for _ in range(nspecs):
-        spec, g = G.gen_spec(rng)
+        spec, g = G.gen_spec(ctx.rng)
+        pt_one_spec(ctx, spec, narr, nvals)
+
+
+def pt_one_spec(ctx, spec, narr, nvals, kinds=G.ALL_KINDS):
+    rng = ctx.rng
+    if True:
         vg = G.value_gen(rng, spec)
         eff = dict(vg.types)
         names = [n for n, _ in spec.types]
@@ -290,7 +314,7 @@ def pt_arrangements(ctx, nspecs, narr, nvals):
                 except RecursionError:
                     pass
             vals[n] = vs
-        arrs = arrangement_texts(ctx, spec, narr)
+        arrs = arrangement_texts(ctx, spec, narr, kinds)
         parsed = []
         for text, log, _ in arrs:
             r = lib.attempt(asn1tools.parse_string, text)
@@ -301,7 +325,7 @@ def pt_arrangements(ctx, nspecs, narr, nvals):
                 break
             parsed.append(r[1])
         if parsed is None:
-            continue
+            return
         kinds = sorted({l.split()[0] for _, log, _ in arrs for l in log})
         ctx.case(('spec', spec.tags, spec.ext_implied, len(arrs[0][0]) // 60, tuple(kinds)),
                  dict(kind='arrangements', arrangement1=arrs[0][0][:400], steps=arrs[1][1] if narr > 1 else []))
@@ -506,6 +530,7 @@ def run(ctx):
     known_findings(ctx)
     dup_name_cases(ctx, 6 if ctx.quick else 80)
     choice_chain_cases(ctx, 10 if ctx.quick else 150)
+    tree_cases(ctx, 8 if ctx.quick else 100, 4, 3)
     pt_arrangements(ctx, 40 if ctx.quick else 350, 3, 3 if ctx.quick else 4)
     ctx.log('property test done')
     total = 12 if ctx.quick else 150
